@@ -41,6 +41,11 @@ int main(int argc, char **argv) {
                     COMMANDLINEOPTION_NOARGUMENT, "false");
   parser.add_option("no-initial-output", 0, "No initial snapshot.",
                     COMMANDLINEOPTION_NOARGUMENT, "false");
+  parser.add_option("params2", 0,
+                    "Parameter file of a second task-based photoionization "
+                    "simulation that is set up and run in the same process "
+                    "after the first one has finished.",
+                    COMMANDLINEOPTION_STRINGARGUMENT, "");
   TaskBasedRadiationHydrodynamicsSimulation::add_command_line_parameters(
       parser);
   parser.parse_arguments(argc, argv);
@@ -68,6 +73,19 @@ int main(int argc, char **argv) {
       simulation.initialize();
       simulation.run();
     }
+  }
+  if (!parser.get_value< bool >("task-based-rhd") &&
+      parser.get_value< std::string >("params2") != "") {
+    // "all repeated runs of a given parameter file": a second set-up in the
+    // same process must not see anything of the first one
+    CMI_EV("\"e\":\"run.second\"");
+    TaskBasedIonizationSimulation simulation(
+        parser.get_value< int_fast32_t >("threads"),
+        parser.get_value< std::string >("params2"),
+        parser.get_value< bool >("task-plot"),
+        !parser.get_value< bool >("no-initial-output"), log);
+    simulation.initialize();
+    simulation.run();
   }
   CMI_EV("\"e\":\"run.end\",\"rc\":%i", rc);
   delete log;
